@@ -241,6 +241,14 @@ func (b *Builder) resolvePending(ctx context.Context) (diags Diagnostics) {
 		b.mu.Unlock()
 	}()
 
+	if b.targetDir == "" {
+		// The builder was closed, or another call left it unusable, while
+		// this call was waiting for the lock: the check its caller made
+		// earlier no longer holds, and carrying on would fetch packages
+		// into places that are not the bundle directory.
+		panic("use of closed sourcebundle.Builder")
+	}
+
 	trace := buildTraceFromContext(ctx)
 
 	// We'll just keep iterating until we've depleted our queues.
